@@ -170,20 +170,25 @@ Section search.
   (** The interpreter against the symbolic run: what is yielded is exactly the union of the parts the symbolic
       run says are yielded, the presence facts evolve as predicted, and no reader can tell the new state from
       the old one. *)
+  Lemma ne_target_equiv nm st st' : ix_equiv st st' → ne_target nm st' = ne_target nm st.
+  Proof. intros (_&_&_&_&_&Ht). unfold ne_target. by rewrite Ht. Qed.
+  Lemma ne_class_equiv nm st st' : ix_equiv st st' → ne_class nm st' = ne_class nm st.
+  Proof. intros (_&_&_&_&Hc&_). unfold ne_class. by rewrite Hc. Qed.
+
   Lemma sp_run_sem p : ∀ nm st t c pp bt' bc' r st', Inv fold st →
-    sp_sym p (has_target nm st) (has_class nm st) = (t, c, pp, bt', bc') →
+    sp_sym (ne_target nm st) (ne_class nm st) p (has_target nm st) (has_class nm st) = (t, c, pp, bt', bc') →
     sp_run fold p nm st = (r, st') →
     ix_equiv st st' ∧ has_target nm st' = bt' ∧ has_class nm st' = bc' ∧
     ∀ e, e ∈ r ↔ (t = true ∧ eT nm st e) ∨ (c = true ∧ eC nm st e) ∨ (pp = true ∧ eP nm st e).
   Proof.
-    induction p as [|a IHa b IHb|cd a IHa b IHb| | |tst f]; intros nm st t c pp bt' bc' r st' HI Hsym Hrun; simpl in *.
+    induction p as [|a IHa b IHb|cd a IHa b IHb| | |tst f| |]; intros nm st t c pp bt' bc' r st' HI Hsym Hrun; simpl in *.
     - simplify_eq. split; [apply ix_equiv_refl|]. split; [done|]. split; [done|].
       intros e. split; [set_solver|naive_solver].
-    - destruct (sp_sym a _ _) as [[[[t1 c1] p1] bt1] bc1] eqn:Ea.
+    - destruct (sp_sym _ _ a _ _) as [[[[t1 c1] p1] bt1] bc1] eqn:Ea.
       destruct (sp_run fold a nm st) as [r1 st1] eqn:Ra.
       destruct (IHa _ _ _ _ _ _ _ _ _ HI Ea Ra) as (Heq1 & Hbt1 & Hbc1 & Hr1).
-      rewrite <- Hbt1, <- Hbc1 in Hsym.
-      destruct (sp_sym b _ _) as [[[[t2 c2] p2] bt2] bc2] eqn:Eb.
+      rewrite <- Hbt1, <- Hbc1, <- (ne_target_equiv nm st st1 Heq1), <- (ne_class_equiv nm st st1 Heq1) in Hsym.
+      destruct (sp_sym _ _ b _ _) as [[[[t2 c2] p2] bt2] bc2] eqn:Eb.
       destruct (sp_run fold b nm st1) as [r2 st2] eqn:Rb.
       assert (HI1 : Inv fold st1) by (by eapply ix_equiv_inv).
       destruct (IHb _ _ _ _ _ _ _ _ _ HI1 Eb Rb) as (Heq2 & Hbt2 & Hbc2 & Hr2).
@@ -194,6 +199,8 @@ Section search.
     - destruct cd.
       + destruct (has_target nm st) eqn:E; [eapply IHa|eapply IHb]; eauto; by rewrite E.
       + destruct (has_class nm st) eqn:E; [eapply IHa|eapply IHb]; eauto; by rewrite E.
+      + destruct (ne_target nm st) eqn:E; [eapply IHa|eapply IHb]; eauto; by rewrite E.
+      + destruct (ne_class nm st) eqn:E; [eapply IHa|eapply IHb]; eauto; by rewrite E.
     - simplify_eq. split.
       { repeat split; try done. intros k. simpl. apply ix_get_probe. }
       split; [apply has_target_probe|]. split; [done|].
@@ -208,6 +215,10 @@ Section search.
         * intros (Hp & k & Hk & Hb). apply bool_decide_eq_true in Hb as ->. naive_solver.
         * intros [[_ [Hp Hk]]|[[? _]|[? _]]]; try done. split; [done|]. exists nm. by rewrite bool_decide_eq_true.
       + naive_solver.
+    - simplify_eq. split; [apply ix_equiv_refl|]. split; [done|]. split; [done|].
+      intros e. rewrite (inv_by_target fold) by done. unfold eT. naive_solver.
+    - simplify_eq. split; [apply ix_equiv_refl|]. split; [done|]. split; [done|].
+      intros e. rewrite (inv_by_class fold) by done. unfold eC. naive_solver.
   Qed.
 
   Lemma is_prefix_refl s : is_prefix s s = true.
@@ -226,8 +237,36 @@ Section search.
     destruct (by_class st !! nm) eqn:E; [by destruct Hh|set_solver].
   Qed.
 
-  Lemma flag_case_in (bt bc : bool) : (bt, bc) ∈ flag_cases.
-  Proof. destruct bt, bc; unfold flag_cases; set_solver. Qed.
+  (** a set without members holds no match; a set with members is present *)
+  Lemma empty_target_none nm st e : Inv fold st → ne_target nm st = false → ¬ eT nm st e.
+  Proof.
+    intros HI Hh [Hp Ht]. assert (He : e ∈ ix_get (by_target st) (Some nm)) by (by apply (inv_by_target fold)).
+    unfold ne_target in Hh. apply bool_decide_eq_false in Hh. apply Hh. intros E. rewrite E in He. set_solver.
+  Qed.
+  Lemma empty_class_none nm st e : Inv fold st → ne_class nm st = false → ¬ eC nm st e.
+  Proof.
+    intros HI Hh [Hp Ht]. assert (He : e ∈ ix_get (by_class st) nm) by (by apply (inv_by_class fold)).
+    unfold ne_class in Hh. apply bool_decide_eq_false in Hh. apply Hh. intros E. rewrite E in He. set_solver.
+  Qed.
+  Lemma ne_target_present nm st : ne_target nm st = true → has_target nm st = true.
+  Proof.
+    unfold ne_target, has_target, ix_get. intros H%bool_decide_eq_true. apply bool_decide_eq_true.
+    destruct (by_target st !! Some nm); [done|by destruct H].
+  Qed.
+  Lemma ne_class_present nm st : ne_class nm st = true → has_class nm st = true.
+  Proof.
+    unfold ne_class, has_class, ix_get. intros H%bool_decide_eq_true. apply bool_decide_eq_true.
+    destruct (by_class st !! nm); [done|by destruct H].
+  Qed.
+
+  Lemma flag_case_in (bt bc net nec : bool) : (net = true → bt = true) → (nec = true → bc = true) →
+    (bt, bc, net, nec) ∈ flag_cases.
+  Proof.
+    clear fold_idem fold. intros H1 H2. destruct net; [rewrite H1 by done|]; (destruct nec; [rewrite H2 by done|]);
+      try destruct bt; try destruct bc; unfold flag_cases; set_solver.
+  Qed.
+  Lemma flag_case_st nm st : (has_target nm st, has_class nm st, ne_target nm st, ne_class nm st) ∈ flag_cases.
+  Proof. apply flag_case_in; [apply ne_target_present|apply ne_class_present]. Qed.
 
   (** VMF.search as written (any generated shape that passes [search_shape_ok]) returns exactly the entities of
       [search_spec], and leaves a state that no reader can tell from the one before (only empty sets may have
@@ -245,11 +284,11 @@ Section search.
     { split; [|apply ix_equiv_refl]. intros e. split; [set_solver|]. by intros [? _]. }
     destruct (ends_star (fold name)) eqn:Hst.
     - set (nm := removelast (fold name)).
-      destruct (sp_sym (sh_star sh) (has_target nm st) (has_class nm st)) as [[[[t c] pp] bt'] bc'] eqn:Es.
+      destruct (sp_sym (ne_target nm st) (ne_class nm st) (sh_star sh) (has_target nm st) (has_class nm st)) as [[[[t c] pp] bt'] bc'] eqn:Es.
       destruct (sp_run fold (sh_star sh) nm st) as [r st'] eqn:Er.
       destruct (sp_run_sem _ _ _ _ _ _ _ _ _ _ HI Es Er) as (Heq & _ & _ & Hr). simpl. split; [|done].
       unfold star_ok in Hstar. rewrite forallb_forall in Hstar.
-      specialize (Hstar _ (proj1 (elem_of_list_In _ _) (flag_case_in (has_target nm st) (has_class nm st)))).
+      specialize (Hstar _ (proj1 (elem_of_list_In _ _) (flag_case_st nm st))).
       simpl in Hstar. rewrite Es in Hstar. apply andb_true_iff in Hstar as [-> Hc]. apply negb_true_iff in Hc as ->.
       intros e. rewrite Hr. unfold eT, eC, eP. split.
       + intros [[_ [Hp Ht]]|[[? _]|[_ [Hp Hk]]]].
@@ -258,20 +297,20 @@ Section search.
         * by split.
       + intros (_ & Hp & Hk). right. right. by split.
     - set (nm := fold name).
-      destruct (sp_sym (sh_exact sh) (has_target nm st) (has_class nm st)) as [[[[t c] pp] bt'] bc'] eqn:Es.
+      destruct (sp_sym (ne_target nm st) (ne_class nm st) (sh_exact sh) (has_target nm st) (has_class nm st)) as [[[[t c] pp] bt'] bc'] eqn:Es.
       destruct (sp_run fold (sh_exact sh) nm st) as [r st'] eqn:Er.
       destruct (sp_run_sem _ _ _ _ _ _ _ _ _ _ HI Es Er) as (Heq & _ & _ & Hr). simpl. split; [|done].
       unfold exact_ok in Hex. rewrite forallb_forall in Hex.
-      specialize (Hex _ (proj1 (elem_of_list_In _ _) (flag_case_in (has_target nm st) (has_class nm st)))).
+      specialize (Hex _ (proj1 (elem_of_list_In _ _) (flag_case_st nm st))).
       simpl in Hex. rewrite Es in Hex. apply andb_true_iff in Hex as [Hex Hc]. apply andb_true_iff in Hex as [Hpp Ht].
       apply negb_true_iff in Hpp as ->.
       intros e. rewrite Hr. split.
       + intros [[_ [Hp Hk]]|[[_ [Hp Hk]]|[? _]]]; try done; naive_solver.
       + intros (_ & Hp & [Hk|Hk]).
-        * left. split; [|done]. destruct (has_target nm st) eqn:E; [by destruct t|].
-          by destruct (absent_target_empty nm st e HI E).
-        * right. left. split; [|done]. destruct (has_class nm st) eqn:E; [by destruct c|].
-          by destruct (absent_class_empty nm st e HI E).
+        * left. split; [|done]. destruct (ne_target nm st) eqn:E; [by destruct t|].
+          by destruct (empty_target_none nm st e HI E).
+        * right. left. split; [|done]. destruct (ne_class nm st) eqn:E; [by destruct c|].
+          by destruct (empty_class_none nm st e HI E).
   Qed.
 
   (** ... hence it is the hand model [search] of SM/IndexModel.v. *)
@@ -308,5 +347,23 @@ Section elif_refuted.
     split; [by apply run_inv, init_inv|]. split.
     { split; [done|]. split; [right; vm_compute; set_solver|]. right. reflexivity. }
     apply Hp; right; vm_compute; reflexivity.
+  Qed.
+
+  (** Seeded fault c07_5 (round 5): [ents = self.by_target.get(name) or self.by_class.get(name); if ents: yield from ents].
+      The obligation about the exact branch fails; two plain lookups one after the other pass; and when an entity is
+      named like another one's class, the search for that class misses the entity of that class. *)
+  Lemma search_or_refuted :
+    search_shape_ok search_shape_or = false ∧ search_shape_ok search_shape_two_gets = true ∧
+    Inv ascii_fold st_named ∧ search_spec ascii_fold a st_named 1 ∧ 1 ∉ (search_sh ascii_fold search_shape_or a st_named).1 ∧
+    1 ∈ (search_sh ascii_fold search_shape_two_gets a st_named).1.
+  Proof.
+    split; [reflexivity|]. split; [reflexivity|].
+    split; [by apply run_inv, init_inv|]. split.
+    { split; [done|]. split; [right; vm_compute; set_solver|]. right. reflexivity. }
+    split.
+    - intros He. apply elem_of_elements in He. revert He.
+      match goal with |- _ ∈ ?l → _ => replace l with [2] by (vm_compute; reflexivity) end. set_solver.
+    - apply elem_of_elements.
+      match goal with |- _ ∈ ?l => let v := eval vm_compute in l in change l with v end. set_solver.
   Qed.
 End elif_refuted.
